@@ -325,6 +325,25 @@ func auxSatisfy(r *rand.Rand, seed int64, n int, emit func(E), stats map[string]
 		}
 		g.focus = []string{"x", "xy", "arr", "n.a"}
 		c := g.crit(3)
+		if i%8 == 3 {
+			// membership tests aimed at a document: Contains with the elements of its own array drawn
+			// with repetition (more listed elements than the array holds), In with its own value of
+			// the field among others
+			for _, d := range docs {
+				if arr, ok := ObjGet(d, "arr"); ok && arr[0] == "arr" && len(toList(arr[1])) > 0 {
+					el := toList(arr[1])
+					list := make([]interface{}, 0)
+					for k := 0; k < len(el)+1+g.r.Intn(2); k++ {
+						list = append(list, []interface{}{"lit", toV(el[g.r.Intn(len(el))])})
+					}
+					c = []interface{}{"un", "contains", B("arr"), []interface{}{"list", list}}
+					if g.chance(0.3) {
+						c = []interface{}{"not", c}
+					}
+					break
+				}
+			}
+		}
 		for _, d := range docs {
 			obs := "panic"
 			safely(func() {
@@ -555,10 +574,32 @@ func auxIntersect(r *rand.Rand, n int, emit func(E), stats map[string]int) {
 		}
 		return 0
 	}
+	// the ranges where the two meanings of a nil bound meet, and the degenerate ones, are drawn far
+	// more often than their share: the nil-only range, half-open ends, equal bounds
+	var special [][]interface{}
+	for _, rg := range ranges {
+		s, e := toV(rg[0]), toV(rg[1])
+		if s[0] == "nobound" || e[0] == "nobound" || fmt.Sprint(s) == fmt.Sprint(e) {
+			special = append(special, rg)
+		}
+	}
+	nilOnly := []interface{}{V{"nobound"}, V{"nobound"}, 1, 1}
 	total := len(ranges) * len(ranges)
 	for it := 0; it < n; it++ {
 		k := r.Intn(total)
 		r1, r2 := ranges[k/len(ranges)], ranges[k%len(ranges)]
+		switch it % 8 {
+		case 1:
+			r1 = special[r.Intn(len(special))]
+		case 2:
+			r2 = special[r.Intn(len(special))]
+		case 3:
+			r1, r2 = special[r.Intn(len(special))], special[r.Intn(len(special))]
+		case 4:
+			r2 = nilOnly
+		case 5:
+			r1 = nilOnly
+		}
 		g1, g2 := rangeToGo(u, r1), rangeToGo(u, r2)
 		var r3 []interface{}
 		e1, e3 := 0, 0
